@@ -53,7 +53,7 @@ def r1_scoping_set(m, ctx, blocks):
 
 def r3_lookup(m):
     r = RuleResult("C16.R3", "symbol lookup consults the scope itself, its used modules, then only its ancestors; a new scope is nested under the current one")
-    r.floor = 2
+    r.floor = 3
     k = m.key("SymbolTable", ST)
     f = m.method(k, "lookup")
     r.instances += 1
@@ -89,6 +89,30 @@ def r3_lookup(m):
     r.ob(ok, "SymbolTables.enter_scope nests the new table under the current scope and makes it current")
     if not ok:
         r.fail("enter_scope", "SymbolTables.enter_scope no longer creates the new table with parent=current scope, registers it as a child and makes it current", m.loc(es) if es else None)
+    # every scoping unit gets a table of its own: what becomes the current scope is always freshly constructed in this call
+    if es is not None:
+        r.instances += 1
+        cur_defs = [n for n in A.body_nodes(es.node) if isinstance(n, ast.Assign) and any(A.text(t) == "self._current_scope" for t in n.targets)]
+        stale = None
+        for cd in cur_defs:
+            v = cd.value
+            srcs = [v]
+            if isinstance(v, ast.Name):
+                srcs = [n.value for n in A.body_nodes(es.node) if isinstance(n, ast.Assign) and any(A.text(t) == v.id for t in n.targets)]
+                loops = [n for n in A.body_nodes(es.node) if isinstance(n, (ast.For, ast.comprehension)) and v.id in A.assigned_names(n.target)]
+                if loops:
+                    stale = (cd, "`%s` can be an element of `%s`" % (v.id, A.text(loops[0].iter)[:40]))
+            for sv in srcs:
+                # (re-entering an existing TOP-LEVEL table through self.lookup() is the documented behaviour outside any scope)
+                fresh = isinstance(sv, ast.Call) and (A.text(sv.func) in ("SymbolTable", "self.add", "self.lookup") or A.text(sv.func).endswith(".add"))
+                if not fresh and stale is None:
+                    stale = (cd, "`%s` is not a newly constructed table" % A.text(sv)[:40])
+        r.ob(stale is None and bool(cur_defs), "SymbolTables.enter_scope: the scope entered is always a table constructed in this call")
+        if stale is not None:
+            r.fail("enter_scope|reuses-table", "SymbolTables.enter_scope can make an existing table the current scope (%s): two scoping units with "
+                   "the same name under one parent (an interface body and the separate module procedure it describes, a BLOCK and an "
+                   "internal procedure) then share one table, and the declarations of one shadow intrinsics in the other" % stale[1],
+                   m.loc(es, stale[0]))
     xs = m.method(ks, "exit_scope")
     r.instances += 1
     ok = xs is not None and any(isinstance(n, ast.Assign) and A.text(n.targets[0]) == "self._current_scope" and A.text(n.value) == "self._current_scope.parent"
